@@ -219,58 +219,9 @@ fn async_rxc_listen() {
     }
 }
 
-//@h id=async_rx_downlink_c props=C06,C10,C04 tier=quick build=dev-eu868 cost=500 timeout=2400
-//@bounds one Device::rx_downlink (the receive procedure after a data uplink) on a joined Class C device from an arbitrary uplink counter, fault-free radio: while waiting for the two windows at most one frame is heard in total (accepted, rejected or expiring) or none (futures::select decided both ways), each window times out or receives a frame the MAC accepts or rejects: the whole sequence of radio configurations of a Class C transaction
-//@encodes async_device::Device::{rx_downlink, between_windows (class-c, futures::select), rx_listen, window_complete, handle_mac_response}
-//@assumes Mac::{handle_rx, handle_rxc, rx2_complete, get_rx_delay, get_rxc_config} replaced by contract stubs (facts decided by the MAC-level harnesses); timers immediate (the timer wins the select exactly when the radio stays pending); Device::send around it (tx, counter bookkeeping) is async_send_faults, built without class-c
-#[kani::proof]
-#[kani::stub(Mac::handle_rx, stub_handle_rx)]
-#[kani::stub(Mac::handle_rxc, stub_handle_rxc)]
-#[kani::stub(Mac::rx2_complete, stub_rx2_complete)]
-#[kani::stub(Mac::get_rx_delay, stub_get_rx_delay)]
-#[kani::stub(Mac::get_rxc_config, stub_get_rxc_config)]
-#[kani::unwind(4)]
-fn async_rx_downlink_c() {
-    crate::mac::verif_kani_lorawan_device_mac_common::vinit();
-    let start: u32 = kani::any();
-    reset_ghosts(start);
-    let radio = CRadio::new(usize::MAX, 1);
-    let mut dev: Device<CRadio, MTimer, NoRng, 256, 2> =
-        Device::new(region::Configuration::new(region::Region::EU868), radio, MTimer, NoRng);
-    dev.enable_class_c();
-    let (w1, w2) = (any_rf(), any_rf());
-    kani::assume(w1.frequency != unsafe { C_RXC_F.v } && w2.frequency != unsafe { C_RXC_F.v } && w1.frequency != w2.frequency);
-    let windows = mac::RxWindows { rx1: w1, rx2: w2 };
-    let ms: u32 = kani::any();
-    kani::assume(ms < 0x7FFF_0000);
-    let r = block_on(dev.rx_downlink(&Frame::Data, ms, &windows));
-    unsafe {
-        crate::vcheck!(r.is_ok(), "C04: a fault-free receive procedure completes");
-        crate::vcheck!(dev.radio.tx_calls == 0 && dev.radio.low_power_calls == 0, "C10: a Class C device listens between and after the windows instead of sleeping");
-        let n = C_LOG.v.1;
-        // every continuous reception uses the RXC (= RX2) parameters; the windows use their own, in order
-        let k: usize = kani::any();
-        if k < n && k < 12 {
-            let (f, tag) = log_at(k);
-            crate::vcheck!((tag == 0) == (f == C_RXC_F.v), "C10: Class C listening between and after the windows uses the RX2 parameters, the windows use the parameters bound to the uplink");
-        }
-        crate::vcheck!(n == 3 || n == 6, "C10: listen, RX1, listen [, listen, RX2, listen]");
-        crate::vcheck!(log_at(0).1 == 0 && log_at(1) == (w1.frequency, 1) && log_at(2).1 == 0, "C10: continuous listening until RX1, the RX1 window, listening again");
-        if n == 6 {
-            crate::vcheck!(log_at(3).1 == 0 && log_at(4) == (w2.frequency, 1) && log_at(5).1 == 0, "C10: continuous listening until RX2, the RX2 window, listening again");
-        }
-        // counters: one step per accepted frame or closed transaction, never a wrap
-        crate::vcheck!(G_FCNT.v >= start && (G_FCNT.v > start || (start == u32::MAX)), "C06: the receive procedure consumes the uplink's counter (or the counter space is exhausted)");
-        if start == u32::MAX {
-            crate::vcheck!(C_EXPIRED.v || matches!(r, Ok(mac::Response::SessionExpired)), "C06: counter exhaustion is reported, the counter does not wrap");
-        }
-        kani::cover!(n == 6 && C_RXC_ACCEPTED.v == 1 && G_RX_CALLS.v == 0, "Class C downlink between the windows, both windows time out");
-        kani::cover!(n == 3 && G_RX_CALLS.v == 1, "downlink in RX1");
-    }
-}
-
 // ---- joining with Class C enabled --------------------------------------------------------------------
 static mut CJ_STATE: Uq<u8> = Uq { magic: 0x6C727600C1A55C11, v: 0 }; // ghost MAC state: 0 unjoined, 1 joining, 2 joined
+static mut CJ_W: Uq<(u32, u32)> = Uq { magic: 0x6C727600C1A55C12, v: (0, 0) }; // RX1 / RX2 frequencies bound to the request
 
 fn stub_join_otaa_c<RNG: RngCore, const N: usize>(
     _m: &mut Mac,
@@ -281,6 +232,7 @@ fn stub_join_otaa_c<RNG: RngCore, const N: usize>(
     unsafe { CJ_STATE.v = 1 };
     let (w1, w2) = (any_rf(), any_rf());
     kani::assume(w1.frequency != unsafe { C_RXC_F.v } && w2.frequency != unsafe { C_RXC_F.v });
+    unsafe { CJ_W.v = (w1.frequency, w2.frequency) };
     (radio::TxConfig { pw: kani::any(), rf: any_rf() }, mac::RxWindows { rx1: w1, rx2: w2 }, kani::any())
 }
 fn stub_handle_rx_join_c<const N: usize, const D: usize>(
@@ -315,8 +267,8 @@ fn stub_handle_rxc_join<const N: usize, const D: usize>(
     Err(mac::Error::NotJoined)
 }
 
-//@h id=async_join_class_c props=C11,C07,C04 tier=quick build=dev-eu868 cost=300 timeout=2400
-//@bounds one Device::join(OTAA) with Class C enabled, fault-free radio: while waiting for each of the two join windows the continuous reception hears at most one frame in total or stays silent until the timer fires, each window times out or receives a frame that is a valid JoinAccept or not: a frame heard while waiting (which cannot be for a device that has no session) has no effect on the attempt; joined iff the MAC saw a valid JoinAccept, else 'no join accept'
+//@h id=async_join_class_c props=C11,C07,C04,C10 tier=quick build=dev-eu868 cost=300 timeout=2400
+//@bounds one Device::join(OTAA) with Class C enabled, fault-free radio: while waiting for each of the two join windows the continuous reception hears at most one frame in total or stays silent until the timer fires, each window times out or receives a frame that is a valid JoinAccept or not: the radio is configured listen (RX2 parameters, continuous), RX1 (bound parameters, single), listen [, listen, RX2, listen] and never put to sleep -- the receive procedure Device::rx_downlink shares with data uplinks; a frame heard while waiting (which cannot be for a device that has no session) has no effect on the attempt; joined iff the MAC saw a valid JoinAccept, else 'no join accept'
 //@encodes async_device::Device::{join, rx_downlink, between_windows (class-c), rx_listen, window_complete, handle_mac_response}, From<mac::Response> for JoinResponse
 //@assumes Mac::{join_otaa, handle_rx, handle_rxc, rx2_complete, get_rxc_config} replaced by contract stubs (join_request_exact, join_accept_*, rxc_not_joined); timers immediate
 #[kani::proof]
@@ -346,6 +298,18 @@ fn async_join_class_c() {
             Ok(JoinResponse::JoinSuccess) => crate::vcheck!(CJ_STATE.v == 2, "C11: joined only upon a valid JoinAccept"),
             Ok(JoinResponse::NoJoinAccept) => crate::vcheck!(CJ_STATE.v == 1 && dev.radio.rx_single_calls == 2, "C11: 'no join accept' only after both windows closed without a valid JoinAccept"),
             Err(_) => crate::vcheck!(false, "C07/C11: a frame heard on the Class C channel while waiting for the join windows (no radio fault) ended the join attempt with an error instead of having no effect"),
+        }
+        // C10: the sequence of radio configurations of a Class C receive procedure
+        if r.is_ok() {
+            let n = C_LOG.v.1;
+            crate::vcheck!(n == 3 || n == 6, "C10: listen, RX1, listen [, listen, RX2, listen]");
+            crate::vcheck!(log_at(0) == (C_RXC_F.v, 0) && log_at(1) == (CJ_W.v.0, 1) && log_at(2) == (C_RXC_F.v, 0),
+                "C10: continuous listening with the RX2 parameters until RX1, the RX1 window with the parameters bound to the uplink, listening again");
+            if n == 6 {
+                crate::vcheck!(log_at(3) == (C_RXC_F.v, 0) && log_at(4) == (CJ_W.v.1, 1) && log_at(5) == (C_RXC_F.v, 0),
+                    "C10: continuous listening with the RX2 parameters until RX2, the RX2 window with the parameters bound to the uplink, listening again");
+            }
+            crate::vcheck!(dev.radio.low_power_calls == 0, "C10: a Class C device listens between and after the windows instead of sleeping");
         }
         kani::cover!(C_RXC_CALLS.v == 1 && dev.radio.rx_single_calls >= 1, "a frame was heard before a join window");
         kani::cover!(matches!(r, Ok(JoinResponse::JoinSuccess)), "joined");
